@@ -609,6 +609,8 @@ package twig
 //@   flag rely_tree yes
 //@   requires n.defaults != ctx.macros
 //@   loop 1 invariant[C12] 0 - 1 <= rangeindex && rangeindex < len(n.params) && macroCtx.parent == ctx && macroCtx != ctx && freshRef(macroCtx)
+//@   loop 1 invariant[C12] macroCtx.context != nil && macroCtx.context != ctx.context && freshRef(macroCtx.context) && (forall j int :: 0 <= j && j <= rangeindex ==> has(macroCtx.context, n.params[j]))
+//@   loop 2 invariant[C12] rangeindex + 1 == 0 ==> (forall j int :: 0 <= j && j < len(n.params) ==> has(macroCtx.context, n.params[j]))
 //@   atcall (*RenderContext).SetVariable a0 == macroCtx && a1 == n.params[rangeindex + 1]
 //@   atcall (*RenderContext).SetVariable rangeindex + 1 < len(args) ==> a2 == args[rangeindex + 1]
 //@   atcall (*RenderContext).SetVariable rangeindex + 1 >= len(args) && !has(n.defaults, n.params[rangeindex + 1]) ==> a2 == nil
